@@ -306,6 +306,17 @@ class ExtraHolder:
         self.u, self.v = u, v
 
 
+class Job:
+    """Union members that fail with the SAME words at different places."""
+    def __init__(self, name: str, retries: Union[int, List[int]] = 0,
+                 tags: Union[str, List[str], None] = None,
+                 limits: Union[float, Dict[str, float], None] = None
+                 ) -> None:
+        T(self, locals())
+        self.name, self.retries, self.tags = name, retries, tags
+        self.limits = limits
+
+
 class Holder:
     def __init__(self, s: Sub, ss: Optional[List[Sub]] = None,
                  u: Union[Sub, int, None] = None) -> None:
